@@ -235,3 +235,28 @@ Proof. exact determine_current_selected. Qed.
 
 Print Assumptions C04_determine_current_priv_is_source.
 Print Assumptions C04_determine_current_selected.
+
+(* network SendCommand / SendCommands / SendConfigs AS THE SOURCE HAS THEM ON THIS RUN: commands
+   acquire the DEFAULT desired level unless the cached level already is it (the shortcut of F25)
+   and then hand over to the generic driver; configs ALWAYS acquire — the requested level, or
+   "configuration" when none is requested — and pass the acquire's error on; which is the case
+   analysis of NetworkHistory.run_aop ([C04_run_aop_cases], by definition). *)
+Theorem C04_net_send_is_source : ns_table_ok = true.
+Proof. exact net_send_is_source. Qed.
+
+Theorem C04_run_aop_cases : forall net prompt_of d cached lines priv,
+  run_aop net prompt_of d cached (OCmd lines)
+  = (if beqb cached (n_default net) then Some (send_lines (n_levels net) d lines, cached)
+     else match acquire_priv_abs net prompt_of d cached (n_default net) with
+          | AOk d' c' => Some (send_lines (n_levels net) d' lines, c')
+          | _ => None
+          end)
+  /\ run_aop net prompt_of d cached (OCfg priv lines)
+    = match acquire_priv_abs net prompt_of d cached (match priv with [] => net_default_configuration_priv | p => p end) with
+      | AOk d' c' => Some (send_lines (n_levels net) d' lines, c')
+      | _ => None
+      end.
+Proof. intros. split; reflexivity. Qed.
+
+Print Assumptions C04_net_send_is_source.
+Print Assumptions C04_run_aop_cases.
